@@ -29,7 +29,7 @@ from harness.gnpy_util import EX, TD
 from harness import planning_util as pu
 
 CLAUSES16 = ('OneEntryPerRequest', 'Independent', 'ModelAgrees', 'OnlySlotsDependOnHistory', 'NetworkFrozen', 'SimParamsFrozen',
-             'OrderIndependent')
+             'OrderIndependent', 'OnlyRouteRedesigned', 'RedesignIsForTheRequest')
 
 
 # ---------------------------------------------------------------------------------------------- pool concretisation
@@ -202,6 +202,85 @@ def b2(chk, bench, hists):
     return len(traces)
 
 
+def b2_redesign(chk, bench, hists):
+    """Planning.tla, variant Redesign: TLC-enumerated histories replayed through planning(redesign=True); every request is
+    compared with its run alone under the same option (results: Independent; the settings its redesign left on its route:
+    RedesignIsForTheRequest), every redesign may touch its own route only (OnlyRouteRedesigned) and nothing else changes
+    a setting (NetworkFrozen).  The model's abstract verdicts are not compared here (exp = '')."""
+    p = pool(bench)
+    probe = pu.run_batch(bench, {'path-request': [p['dense']]}, f'{bench}:probe', want_csv=False)
+    if probe.exc or not probe.entries[0]['o']['nm']:
+        raise Machinery(f'{bench}: dense probe failed {probe.exc}')
+    n, m = probe.entries[0]['o']['nm'][0]
+    p['slot']['path-constraints']['te-bandwidth']['effective-freq-slot'] = [{'N': n - m + 4, 'M': 4}]
+    solo_core, solo_post, moved = {}, {}, 0
+    for c, r in p.items():
+        run = pu.run_batch(bench, {'path-request': [copy.deepcopy(r)]}, f'{bench}:redesign:solo:{c}', redesign=True)
+        if run.exc or len(run.entries) != 1:
+            chk.violation(f'B2|exception-in-planning|redesign|{c}|{(run.exc or "entries").split(":")[0]}',
+                          dict(bench=bench, cls=c, exception=run.exc, tb=getattr(run, 'tb', '')))
+            return 0
+        solo_core[c] = pu.core_of(run.entries[0])
+        for d in run.red:
+            solo_post[d['id']] = d['post']
+            moved += bool(d['changed'])
+    if not moved:
+        raise Machinery(f'{bench}: no redesign of the pool changes any setting - the variant is not exercised')
+    chk.cov['redesign_solo_runs_that_changed_settings'] = moved
+    traces, runs = [], {}
+    for h in hists:
+        order = h['order']
+        name = f'{bench}:redesign:' + '>'.join(order)
+        run = pu.run_batch(bench, {'path-request': [copy.deepcopy(p[c]) for c in order]}, name, redesign=True)
+        chk.case(name, nontrivial=len(order) > 1)
+        if run.exc:
+            chk.violation(f'B2|exception-in-planning|redesign|{bench}|{">".join(sorted(order))}',
+                          dict(bench=bench, order=order, exception=run.exc, tb=run.tb))
+            continue
+        if [e['e']['idstr'] for e in run.entries] != order:
+            chk.violation(f'B2|OneEntryPerRequest|redesign|{bench}|batch', dict(order=order))
+            continue
+        c16 = {i: dict(exp='', solo=solo_core[c], unit=i + 1) for i, c in enumerate(order)}
+        traces.append(pu.trace_of(run, c16=c16, j19=False, soloPost=solo_post))
+        runs[name] = (run, h)
+    if traces and not chk.mutant and 'redesign_trace_clauses_shown_to_fire' not in chk.cov:
+        t0 = next(t for t in traces if len(t['red']) >= 2 and any(d['changed'] for d in t['red']))
+        bad = []
+        for clause, mut in (('OnlyRouteRedesigned', lambda t: t['red'][0].update(given=t['red'][0]['given'][1:] if t['red'][0]['changed'][0] == t['red'][0]['given'][0] else [g for g in t['red'][0]['given'] if g != t['red'][0]['changed'][0]])),
+                            ('RedesignIsForTheRequest', lambda t: t['red'][0].update(soloPost=[x ^ 1 for x in t['red'][0]['soloPost']])),
+                            ('NetworkFrozen', lambda t: t.update(netA=[t['netA'][0] ^ 1] + t['netA'][1:]) if 1 not in
+                             {k for d in t['red'] for k in d['changed']} else t.update(netA=t['netA'][:-1] + [t['netA'][-1] ^ 1]))):
+            t = copy.deepcopy(t0)
+            d0 = next(d for d in t['red'] if d['changed'])
+            t['red'].remove(d0)
+            t['red'].insert(0, d0)
+            mut(t)
+            t['name'] = 'selftest-' + clause
+            v = pu.judge([t], chk, 'c16-redesign-selftest')
+            if clause not in {c for _, c in v[t['name']]}:
+                bad.append(clause)
+        if bad:
+            raise Machinery(f'Trace_Planning redesign clauses that do not fire on a corrupted trace: {bad}')
+        chk.cov['redesign_trace_clauses_shown_to_fire'] = ['OnlyRouteRedesigned', 'RedesignIsForTheRequest', 'NetworkFrozen']
+    verdicts = pu.judge(traces, chk, f'c16-b2-redesign-{bench}')
+    for name, viol in verdicts.items():
+        run, h = runs[name]
+        if not viol:
+            chk.traces += 1
+        for step, clause in viol:
+            if clause not in CLAUSES16:
+                continue
+            cls = h['order'][step - 1] if step <= len(h['order']) else 'batch'
+            before = sorted(set(h['order'][:step - 1])) if step <= len(h['order']) else sorted(h['order'])
+            chk.violation(f'B2|{clause}|redesign|{bench}|{cls}|after={"+".join(before) or "-"}',
+                          dict(bench=bench, order=h['order'], step=step, clause=clause,
+                               entry=run.entries[step - 1] if step <= len(run.entries) else None, solo=solo_core.get(cls),
+                               redesigns=[dict(id=d['id'], changed=[run.net_uids[k - 1] for k in d['changed']][:8],
+                                               outside=[run.net_uids[k - 1] for k in d['changed'] if k not in d['given']][:8])
+                                          for d in run.red]))
+    return len(traces)
+
+
 # ------------------------------------------------------------------------------------------------------------- B3
 def restrict(data, ids):
     d = {'path-request': [copy.deepcopy(r) for r in data['path-request'] if str(r['request-id']) in ids]}
@@ -347,6 +426,22 @@ def run(chk):
             raise Machinery(f'vacuity: the defective model (Leaky) does not violate {clause}: {rl.error}')
     chk.cov['clauses_shown_non_vacuous'] = ['Independent', 'NetworkFrozen', 'SimParamsFrozen'] + \
         (['OnlySlotsDependOnHistory', 'ReportedViewsIndependent'] if chk.tier == 'thorough' else [])
+    # the pipeline variant --redesign-per-request: same pool, every history; the settings now change, but only on the route of
+    # the request being computed and to what a design for that request alone gives - so the results stay independent
+    red = base.replace('Redesign = FALSE', 'Redesign = TRUE').replace('PROPERTY NetworkFrozen', 'PROPERTY OnlyRouteRedesigned') \
+        + '\nPROPERTY RedesignIsForTheRequest\n'
+    rr = tlc.run('MC_Planning', cfg_text=red, timeout=600, tag='c16-mc-redesign')
+    chk.add_mc('MC_Planning Redesign=TRUE (1956 histories + reports)', rr)
+    for clause, kind in (('Independent', 'INVARIANT'), ('RedesignIsForTheRequest', 'PROPERTY')):
+        if chk.tier == 'quick' and clause == 'Independent':
+            continue
+        rl = tlc.run('MC_Planning', cfg_text=bare.replace('Leaky = FALSE', 'Leaky = TRUE').replace('Redesign = FALSE', 'Redesign = TRUE')
+                     + f'\n{kind} {clause}\n', timeout=600, tag='c16-leaky-redesign')
+        chk.add_mc(f'MC_Planning Redesign=TRUE Leaky=TRUE must violate {clause}', rl, require_ok=False)
+        if rl.violated != clause:
+            raise Machinery(f'vacuity: the defective redesign model (Leaky) does not violate {clause}: {rl.error}')
+    chk.cov['clauses_shown_non_vacuous'] += ['RedesignIsForTheRequest (Redesign)'] + \
+        (['Independent (Redesign)'] if chk.tier == 'thorough' else [])
     phase['B1'] = round(time.time() - t0, 1)
     # ---- B2
     hists = sorted(r.emitted, key=lambda h: (len(h['order']), h['order']))
@@ -359,10 +454,13 @@ def run(chk):
         sel = short + rng.sample(long_, 10)
         n = b2(chk, 'meshV2', sel)
         chk.cov['b2_histories'] = {'meshV2': n}
+        pairs = [h for h in hists if len(h['order']) == 2 and {'dense', 'sat'} & set(h['order'])]
+        chk.cov['b2_histories_redesign'] = {'meshV2': b2_redesign(chk, 'meshV2', rng.sample(pairs, 6) + rng.sample(long_, 4))}
     else:
         rng = random.Random(chk.seed)
         tt = [h for h in hists if len(h['order']) <= 3] + rng.sample([h for h in hists if len(h['order']) > 3], 200)
         chk.cov['b2_histories'] = {'meshV2': b2(chk, 'meshV2', hists), 'testTopology': b2(chk, 'testTopology', tt)}
+        chk.cov['b2_histories_redesign'] = {'meshV2': b2_redesign(chk, 'meshV2', tt), 'testTopology': b2_redesign(chk, 'testTopology', tt[:150])}
     chk.cov['model_histories_with_slot_dependence'] = sum(1 for h in hists if not all(h['sameAsSolo']))
     phase['B1+B2'] = round(time.time() - t0, 1)
     # ---- B3
@@ -452,6 +550,10 @@ def run(chk):
     from gnpy.tools.json_io import network_from_json
     rmc = tlc.run('MC_Gnpy', timeout=600, tag='gnpy-mc')
     chk.add_mc('MC_Gnpy (pipeline composition, 3 requests)', rmc)
+    if chk.tier == 'thorough':
+        rmr = tlc.run('MC_Gnpy', cfg_text=(tlc.SPEC / 'MC_Gnpy.cfg').read_text().replace('Redesign = FALSE', 'Redesign = TRUE'),
+                      timeout=600, tag='gnpy-mc-redesign')
+        chk.add_mc('MC_Gnpy Redesign=TRUE (the propagation stage may redesign the routes)', rmr)
     ptraces = []
     for b in range(2 if chk.tier == 'quick' else 12):
         bench = 'meshV2+island'
@@ -485,7 +587,9 @@ def run(chk):
     chk.cov['measured_deviation_udB'] = 0
     chk.cov['rule'] = ('B2: one case per (bench, history) - non-trivial when the history has >= 2 requests; '
                        'B3: one case per (service file, order)')
-    chk.assume('the network is designed once (no --redesign-per-request); requests are computed by worker_utils.planning()')
+    chk.assume('the network is designed once and requests are computed by worker_utils.planning(); the variant '
+               'planning(redesign=True) (--redesign-per-request) is covered by MC_Planning Redesign=TRUE and the B2 redesign '
+               'replays: there the settings of the route of the request being computed may change, nothing else')
     chk.assume('solo run of a request = the batch restricted to its unit (requests with the same resolved parameters - the '
                'only ones that may be aggregated - or tied to it by a synchronization vector), in the same relative order, '
                'on a freshly designed network')
@@ -649,7 +753,38 @@ def _mut_csv_rev_carried():
     R.jsontocsv = jsontocsv
 
 
-MUTANTS = {'no_deepcopy': _mut_no_deepcopy, 'shared_receiver': _mut_shared_receiver,
+def _mut_redesign_whole_network():
+    """--redesign-per-request: 'subgraph views are slow' - the redesign is run on the graph the view was taken from"""
+    import gnpy.core.network as N
+    orig = N.design_network
+
+    def design_network(reference_channel, network, equipment, set_connector_losses=True, verbose=True):
+        return orig(reference_channel, getattr(network, '_graph', network), equipment,
+                    set_connector_losses=set_connector_losses, verbose=verbose)
+    N.design_network = design_network
+
+
+def _mut_redesign_sticky_reduction():
+    """--redesign-per-request: a power offset reduced for a heavier request is kept as if the operator had set it (the
+    redesign never raises a delta_p again)"""
+    import gnpy.core.network as N
+    orig = N.set_one_amplifier
+    low = {}
+
+    def set_one_amplifier(node, *a, **kw):
+        out = orig(node, *a, **kw)
+        dp = getattr(node, 'delta_p', None)
+        if dp is not None:
+            low[node.uid] = min(low.get(node.uid, dp), dp)
+            if dp > low[node.uid]:
+                node.effective_gain = node.effective_gain - (dp - low[node.uid])
+                node.delta_p = low[node.uid]
+        return out
+    N.set_one_amplifier = set_one_amplifier
+
+
+MUTANTS = {'redesign_whole_network': _mut_redesign_whole_network, 'redesign_sticky_reduction': _mut_redesign_sticky_reduction,
+           'no_deepcopy': _mut_no_deepcopy, 'shared_receiver': _mut_shared_receiver,
            'gain_written_back': _mut_gain_written_back, 'roadm_state_reused': _mut_roadm_state_reused,
            'design_mutated': _mut_design_mutated, 'rolloff_not_kept': _mut_rolloff_not_kept,
            'penalties_kept': _mut_penalties_kept, 'csv_rev_carried': _mut_csv_rev_carried}
